@@ -1,11 +1,17 @@
 import PalomaModel.Props.Translated.Lemmas
+import PalomaModel.Model.Bridge
 
 set_option linter.unusedSimpArgs false
 
 namespace Paloma.TranslatedTie
 open Paloma.Gen
+open Paloma
 
 /-! ## Property theorems -/
+
+theorem translated_bridgeTaxAmount : translated "x/skyway/keeper.Keeper.bridgeTaxAmount" = true := by decide
+
+theorem translated_UpdateBridgeTransferUsageWithLimit : translated "x/skyway/keeper.Keeper.UpdateBridgeTransferUsageWithLimit" = true := by decide
 
 theorem translated_BlockLimit : translated "x/skyway/types.BridgeTransferLimit.BlockLimit" = true := by decide
 
@@ -15,5 +21,92 @@ theorem blockLimit_eq (p : Int) :
       if p = 1 then 57600 else if p = 2 then 403200 else if p = 3 then 1728000 else if p = 4 then 21024000 else 0 := by
   simp only [Translated.blockLimit, Id.run]
   by_cases h1 : p = 1 <;> by_cases h2 : p = 2 <;> by_cases h3 : p = 3 <;> by_cases h4 : p = 4 <;> simp_all [id_pure]
+
+/-- C15 `bridgeTaxAmount`: with a stored setting (or none) and no store failure, the Go function returns the model's
+    `taxOf` — `floor(amount * num / den)`, 0 for a zero rate, an exempt sender or no setting (numerator / denominator are
+    the `big.Rat` parts of the configured rate string; parsing is validated by correspondence) -/
+theorem bridgeTaxAmount_eq (cfg : Option Bridge.TaxCfg) (sender amt : Nat) :
+    Translated.bridgeTaxAmount cfg.isSome false ((cfg.map (·.num)).getD 0) ((cfg.map (·.den)).getD 0)
+        ((cfg.map (·.exempt)).getD []) sender amt = some ((Bridge.taxOf cfg sender amt : Nat) : Int) := by
+  cases cfg with
+  | none => simp [Translated.bridgeTaxAmount, Bridge.taxOf, Id.run]
+  | some c =>
+    simp only [Translated.bridgeTaxAmount, Bridge.taxOf, Id.run, Option.isSome_some, Option.map_some, Option.getD_some]
+    by_cases hn : c.num = 0
+    · simp [hn]
+    · have hn' : ((c.num : Int) == 0) = false := by simp; omega
+      have hn'' : (c.num == 0) = false := by simp [hn]
+      simp only [Bool.not_true, Bool.false_eq_true, ↓reduceIte, hn', hn'']
+      cases hf : c.exempt.find? (fun a => sender == a) with
+      | some a =>
+        have : c.exempt.contains sender = true := by
+          rw [← find_some_iff_contains, hf]; rfl
+        have hm : sender ∈ c.exempt := by simpa using this
+        simp [hm]
+      | none =>
+        have : c.exempt.contains sender = false := by
+          rw [← find_some_iff_contains, hf]; rfl
+        have hm : ¬ sender ∈ c.exempt := by simpa using this
+        have hnn : (0 : Int) ≤ (amt : Int) * (c.num : Int) := Int.mul_nonneg (Int.natCast_nonneg _) (Int.natCast_nonneg _)
+        simp only [this, Bool.false_eq_true, ↓reduceIte, id_pure, Int.tdiv_eq_ediv_of_nonneg hnn]
+        congr 1
+
+/-- reading of a translated outcome in the model's terms -/
+def toModel (o : Translated.UsageOutcome) (u : Option Bridge.Usage) : Option (Option Bridge.Usage) :=
+  match o with
+  | .unchanged => some u
+  | .error => none
+  | .rejected => none
+  | .saved t s => some (some { start := s.toNat, total := t.toNat })
+
+/-- C15 `UpdateBridgeTransferUsageWithLimit`: the Go function's decision (nothing to do / refuse / persist this usage
+    record) is the model's `limitStep` for every limit setting, stored usage, sender, amount and height — window
+    roll-over `h - start ≥ period`, running total, comparison with the limit BEFORE persisting -/
+theorem updateUsage_eq (lim : Option Bridge.LimitCfg) (usage : Option Bridge.Usage) (sender amt h : Nat) :
+    toModel (Translated.updateUsage lim.isSome false false ((lim.map (·.exempt)).getD []) sender
+        ((lim.map (·.period)).getD 0) ((lim.map (·.limit)).getD 0) usage.isNone
+        ((usage.map (·.start)).getD 0) ((usage.map (·.total)).getD 0) h amt) usage
+      = Bridge.limitStep lim usage sender amt h := by
+  cases lim with
+  | none => simp [Translated.updateUsage, Bridge.limitStep, Id.run, toModel]
+  | some l =>
+    simp only [Translated.updateUsage, Bridge.limitStep, Id.run, Option.isSome_some, Option.map_some, Option.getD_some]
+    cases hf : l.exempt.find? (fun a => sender == a) with
+    | some a =>
+      have : l.exempt.contains sender = true := by rw [← find_some_iff_contains, hf]; rfl
+      have hm : sender ∈ l.exempt := by simpa using this
+      simp [hm, toModel]
+    | none =>
+      have hc : l.exempt.contains sender = false := by rw [← find_some_iff_contains, hf]; rfl
+      have hm : ¬ sender ∈ l.exempt := by simpa using hc
+      by_cases hp : l.period = 0
+      · simp [hc, hp, toModel]
+      · have hp' : ((l.period : Int) == 0) = false := by simp; omega
+        have hp'' : (l.period == 0) = false := by simp [hp]
+        cases usage with
+        | none =>
+          simp only [hc, hp', hp'', Bool.not_true, Bool.false_eq_true, ↓reduceIte, id_pure, Option.isNone_none, Bool.true_or]
+          by_cases hl : amt > l.limit
+          · have : (amt : Int) > (l.limit : Int) := by omega
+            simp [hl, this, toModel]
+          · have : ¬ (amt : Int) > (l.limit : Int) := by omega
+            simp [hl, this, toModel]
+        | some u =>
+          simp only [hc, hp', hp'', Bool.not_true, Bool.false_eq_true, ↓reduceIte, id_pure, Option.isNone_some, Bool.false_or,
+            Option.map_some, Option.getD_some]
+          by_cases hw : h - u.start ≥ l.period
+          · have hw' : (h : Int) - (u.start : Int) ≥ (l.period : Int) := by omega
+            by_cases hl : amt > l.limit
+            · have : (amt : Int) > (l.limit : Int) := by omega
+              simp [hw, hw', hl, this, toModel]
+            · have : ¬ (amt : Int) > (l.limit : Int) := by omega
+              simp [hw, hw', hl, this, toModel]
+          · have hw' : ¬ (h : Int) - (u.start : Int) ≥ (l.period : Int) := by omega
+            by_cases hl : u.total + amt > l.limit
+            · have : (u.total : Int) + (amt : Int) > (l.limit : Int) := by omega
+              simp [hw, hw', hl, this, toModel]
+            · have : ¬ (u.total : Int) + (amt : Int) > (l.limit : Int) := by omega
+              simp [hw, hw', hl, this, toModel]
+              omega
 
 end Paloma.TranslatedTie
